@@ -502,6 +502,13 @@ func randomPlain(rng *rand.Rand, nMin, nMax int) *planSpec {
 		}
 		p.Fetches = append(p.Fetches, f)
 	}
+	if rng.IntN(6) == 0 {
+		// a dependency id listed twice (de-duplication and merging tolerate and produce that)
+		i := rng.IntN(len(p.Fetches))
+		if d := p.Fetches[i].Deps; len(d) > 0 {
+			p.Fetches[i].Deps = append(d, d[rng.IntN(len(d))])
+		}
+	}
 	p.index()
 	return p
 }
